@@ -7,8 +7,11 @@ import (
 	"fmt"
 	"os"
 	"path/filepath"
+	"regexp"
 	"sort"
+	"strconv"
 	"strings"
+	"sync"
 )
 
 type Status string
@@ -197,6 +200,21 @@ func countDistinctNontrivial(os []*Obligation) int {
 	return len(seen)
 }
 
+// countDistinctCases: distinct non-trivial obligations, each weighted by the number of distinct inputs
+// of its abstract-run family (the inputs of one family are pairwise distinct by construction).
+func countDistinctCases(os []*Obligation) int {
+	seen := map[string]bool{}
+	n := 0
+	for _, o := range os {
+		if o.Trivial || seen[o.Key()] {
+			continue
+		}
+		seen[o.Key()] = true
+		n += caseCount(o)
+	}
+	return n
+}
+
 func sampleObligations(os []*Obligation, perRule int) []any {
 	cnt := map[string]int{}
 	var out []any
@@ -213,6 +231,53 @@ func sampleObligations(os []*Obligation, perRule int) []any {
 		})
 	}
 	return out
+}
+
+// ---- samples of abstract runs (evidence) --------------------------------------------------------------
+
+var sampleMu sync.Mutex
+var caseSamples = map[string][]string{}
+
+// noteSample keeps the first few inputs of each abstract-run family for the evidence file.
+func noteSample(rule, text string) {
+	sampleMu.Lock()
+	defer sampleMu.Unlock()
+	if len(caseSamples[rule]) < 4 {
+		if len(text) > 300 {
+			text = text[:300] + "…"
+		}
+		caseSamples[rule] = append(caseSamples[rule], text)
+	}
+}
+
+func abstractRunSamples(rules map[string]bool) []any {
+	sampleMu.Lock()
+	defer sampleMu.Unlock()
+	var keys []string
+	for k := range caseSamples {
+		if rules[strings.SplitN(k, "/", 2)[0]] {
+			keys = append(keys, k)
+		}
+	}
+	sort.Strings(keys)
+	var out []any
+	for _, k := range keys {
+		out = append(out, map[string]any{"abstract_run_family": k, "inputs": caseSamples[k]})
+	}
+	return out
+}
+
+var reLeadingCount = regexp.MustCompile(`^([0-9]+) `)
+
+// caseCount: the number of cases an obligation stands for (the leading count of its discharge text, else 1).
+func caseCount(o *Obligation) int {
+	if m := reLeadingCount.FindStringSubmatch(o.By); m != nil {
+		n, _ := strconv.Atoi(m[1])
+		if n > 0 {
+			return n
+		}
+	}
+	return 1
 }
 
 func joinNonEmpty(sep string, parts ...string) string {
